@@ -51,7 +51,9 @@
 //
 // Sub-checks: limit_model, views_model (this file), limit_wide (wide_test.go:
 // hundreds to thousands of sets, limits next to the number of sets),
-// limit_concurrent (conc_test.go).
+// limit_concurrent (conc_test.go), config_lent (hostile_test.go: two providers
+// configured from caller-owned buffers that are re-used after the calls
+// returned; the views_model oracle per provider).
 package c12
 
 import (
@@ -333,7 +335,13 @@ func newSync(meter metric.Meter, name string, in Inst) (s syncInst, err error) {
 	return s, err
 }
 
-func run(c Case) ([]vk.Violation, vk.Info) {
+func run(c Case) ([]vk.Violation, vk.Info) { return runWith(c, nil) }
+
+// runWith runs the history of c and compares every collection with the
+// model. pre == nil: the provider is built here, every argument in fresh
+// memory; otherwise (config_lent, hostile_test.go) the provider and its readers
+// were configured beforehand from memory the caller went on using.
+func runWith(c Case, pre *prebuilt) ([]vk.Violation, vk.Info) {
 	c = normalize(c)
 	var vs []vk.Violation
 	var info vk.Info
@@ -361,23 +369,6 @@ func run(c Case) ([]vk.Violation, vk.Info) {
 	limit := parseLimit(c.Env)
 
 	ctx := context.Background()
-	readers := make([]*sdkmetric.ManualReader, len(c.Readers))
-	opts := []sdkmetric.Option{sdkmetric.WithResource(resource.Empty())}
-	for i, mode := range c.Readers {
-		ro := []sdkmetric.ManualReaderOption{sdkmetric.WithTemporalitySelector(temporalitySelector(mode))}
-		if i < len(c.Selectors) && len(c.Selectors[i]) == nKinds {
-			ro = append(ro, sdkmetric.WithAggregationSelector(aggregationSelector(c.Selectors[i])))
-		}
-		readers[i] = sdkmetric.NewManualReader(ro...)
-		opts = append(opts, sdkmetric.WithReader(readers[i]))
-	}
-	for _, v := range c.Views {
-		opts = append(opts, sdkmetric.WithView(buildView(v)))
-	}
-	mp := sdkmetric.NewMeterProvider(opts...)
-	defer func() { _ = mp.Shutdown(ctx) }()
-	meter := mp.Meter("c12")
-
 	sets := make([]attribute.Set, len(c.Pool))
 	rawKeys := make([]string, len(c.Pool))
 	for i, kvs := range c.Pool {
@@ -385,24 +376,52 @@ func run(c Case) ([]vk.Violation, vk.Info) {
 		rawKeys[i] = renderKVs(kvs)
 	}
 
+	var readers []*sdkmetric.ManualReader
+	var mp *sdkmetric.MeterProvider
+	if pre != nil {
+		mp, readers = pre.mp, pre.readers
+	} else {
+		readers = make([]*sdkmetric.ManualReader, len(c.Readers))
+		opts := []sdkmetric.Option{sdkmetric.WithResource(resource.Empty())}
+		for i, mode := range c.Readers {
+			ro := []sdkmetric.ManualReaderOption{sdkmetric.WithTemporalitySelector(temporalitySelector(mode))}
+			if i < len(c.Selectors) && len(c.Selectors[i]) == nKinds {
+				ro = append(ro, sdkmetric.WithAggregationSelector(aggregationSelector(c.Selectors[i])))
+			}
+			readers[i] = sdkmetric.NewManualReader(ro...)
+			opts = append(opts, sdkmetric.WithReader(readers[i]))
+		}
+		for _, v := range c.Views {
+			opts = append(opts, sdkmetric.WithView(buildView(v)))
+		}
+		mp = sdkmetric.NewMeterProvider(opts...)
+	}
+	defer func() { _ = mp.Shutdown(ctx) }()
+	// how a measurement names its attribute set
+	setOpt := func(i int) metric.MeasurementOption { return metric.WithAttributeSet(sets[i]) }
+	if pre != nil && pre.attrOpt != nil {
+		setOpt = func(i int) metric.MeasurementOption { return pre.attrOpt(i, c.Pool[i], sets[i]) }
+	}
+	meter := mp.Meter("c12")
+
 	var cur *Cycle // the cycle whose observations callbacks report
-	observeI := func(idx int, f func(int64, attribute.Set)) {
+	observeI := func(idx int, f func(int64, metric.MeasurementOption)) {
 		if cur == nil {
 			return
 		}
 		for _, op := range cur.Obs {
 			if op.Inst == idx {
-				f(op.K, sets[op.Set])
+				f(op.K, setOpt(op.Set))
 			}
 		}
 	}
-	observeF := func(idx int, f func(float64, attribute.Set)) {
+	observeF := func(idx int, f func(float64, metric.MeasurementOption)) {
 		if cur == nil {
 			return
 		}
 		for _, op := range cur.Obs {
 			if op.Inst == idx {
-				f(opValue(op, true), sets[op.Set])
+				f(opValue(op, true), setOpt(op.Set))
 			}
 		}
 	}
@@ -472,7 +491,7 @@ func run(c Case) ([]vk.Violation, vk.Info) {
 			}
 		case !in.Float:
 			cb := func(_ context.Context, o metric.Int64Observer) error {
-				observeI(i, func(v int64, s attribute.Set) { o.Observe(v, metric.WithAttributeSet(s)) })
+				observeI(i, func(v int64, s metric.MeasurementOption) { o.Observe(v, s) })
 				return nil
 			}
 			var x metric.Int64Observable
@@ -500,7 +519,7 @@ func run(c Case) ([]vk.Violation, vk.Info) {
 			allObs = append(allObs, x)
 		default:
 			cb := func(_ context.Context, o metric.Float64Observer) error {
-				observeF(i, func(v float64, s attribute.Set) { o.Observe(v, metric.WithAttributeSet(s)) })
+				observeF(i, func(v float64, s metric.MeasurementOption) { o.Observe(v, s) })
 				return nil
 			}
 			var x metric.Float64Observable
@@ -566,10 +585,10 @@ func run(c Case) ([]vk.Violation, vk.Info) {
 		reg, err := meter.RegisterCallback(func(_ context.Context, o metric.Observer) error {
 			for i := range c.Insts {
 				if x, ok := obsI[i]; ok {
-					observeI(i, func(v int64, s attribute.Set) { o.ObserveInt64(x, v, metric.WithAttributeSet(s)) })
+					observeI(i, func(v int64, s metric.MeasurementOption) { o.ObserveInt64(x, v, s) })
 				}
 				if x, ok := obsF[i]; ok {
-					observeF(i, func(v float64, s attribute.Set) { o.ObserveFloat64(x, v, metric.WithAttributeSet(s)) })
+					observeF(i, func(v float64, s metric.MeasurementOption) { o.ObserveFloat64(x, v, s) })
 				}
 			}
 			return nil
@@ -581,6 +600,9 @@ func run(c Case) ([]vk.Violation, vk.Info) {
 		defer func() { _ = reg.Unregister() }()
 	}
 
+	if pre != nil && pre.afterSetup != nil {
+		pre.afterSetup()
+	}
 	models := resolveAll(c, limit)
 
 	// ---- history ----
@@ -598,7 +620,7 @@ func run(c Case) ([]vk.Violation, vk.Info) {
 				s = syncs2[op.Inst]
 				secondHandleUsed = true
 			}
-			o := metric.WithAttributeSet(sets[op.Set])
+			o := setOpt(op.Set)
 			switch {
 			case s.addI != nil:
 				s.addI(ctx, op.K, o)
